@@ -71,6 +71,7 @@ inductive Shape (n : Node) (op : Op) (p : Plan) : Prop where
   | store (b : Block) (ws' : List Write) (hop : op = .store b)
       (h : p.commits = [blockWrites b ++ ws']) (ha : OnlyAux ws')
       (he : expectedNext n.disk = (b.num, b.parent)) (hs : stateRoot n.disk = b.oldRoot)
+      (hr : b.applied = b.root)
   | revert (h : Nat) (hb tb su : Block) (ws' : List Write) (hop : op = .revert)
       (hc : p.commits = [revertWrites h hb tb su ++ ws']) (ha : OnlyAux ws')
       (hh : getHeight n.disk = some h) (hsu : getBlk n.disk (.su h) = some su)
@@ -88,15 +89,18 @@ theorem storePlan_shape (W : Nat) (n : Node) (b : Block) : Shape n (.store b) (s
       · exact .none rfl
       · rename_i h3
         split
-        · rename_i f hm
-          split
-          · exact .none rfl
-          · rename_i f' ws hins
-            refine .store b ws rfl rfl (insert_onlyAux hins) ?_ (by simpa using h3)
-            have e1 : (expectedNext n.disk).1 = b.num := by simpa using h1
-            have e2 : (expectedNext n.disk).2 = b.parent := by simpa using h2
-            exact Prod.ext e1 e2
         · exact .none rfl
+        · rename_i h4
+          split
+          · rename_i f hm
+            split
+            · exact .none rfl
+            · rename_i f' ws hins
+              refine .store b ws rfl rfl (insert_onlyAux hins) ?_ (by simpa using h3) (by simpa using h4)
+              have e1 : (expectedNext n.disk).1 = b.num := by simpa using h1
+              have e2 : (expectedNext n.disk).2 = b.parent := by simpa using h2
+              exact Prod.ext e1 e2
+          · exact .none rfl
 
 theorem revertPlan_shape (W : Nat) (fx : Fixes) (n : Node) : Shape n .revert (revertPlan W fx n) := by
   simp only [revertPlan]
@@ -184,14 +188,14 @@ theorem exec_cinv (W : Nat) (fx : Fixes) (n : Node) (op : Op) (ft : Fault)
       intro k hk
       simp only [applyCommits, List.foldl_cons, List.foldl_nil]
       exact applyBatch_onlyAux ha _ hk
-    | store b ws' hop h ha he hs =>
+    | store b ws' hop h ha he hs hr =>
       subst hop
       rw [h]
       simp only [applyCommits, List.foldl_cons, List.foldl_nil]
       have hen := expectedNext_of_coh hc
       rw [he] at hen
       have hnb : NextBlock c (plan W fx n (.store b)).disk0 b := by
-        refine ⟨(Prod.mk.inj hen).1, (Prod.mk.inj hen).2, ?_, fresh_congr h0 (hfresh b rfl he)⟩
+        refine ⟨(Prod.mk.inj hen).1, (Prod.mk.inj hen).2, ?_, hr, fresh_congr h0 (hfresh b rfl he)⟩
         rw [← hs, hc.state]
       exact ⟨c ++ [b], wf_append hwf hc0 hnb, coh_append hc0 hnb ha⟩
     | revert h hb tb su ws' hop hcm ha hh hsu hhb htb =>
